@@ -85,8 +85,12 @@ def chimneyFindings (d : Desc) (n : Net) (i : EpInst) : List Finding :=
             let base := i.ep.name ++ "_" ++ p.name
             Hw.bindExpr c reqPort == some (elemExpr (base ++ reqSfx) i) &&
             Hw.bindExpr c rspPort == some (elemExpr (base ++ rspSfx) i) &&
-            (c.params.find? (·.1 == tyReq)).map (·.2) == some (.ident (p.typeName ++ "_req_t")) &&
-            (c.params.find? (·.1 == tyRsp)).map (·.2) == some (.ident (p.typeName ++ "_rsp_t"))
+            -- the interface is built for the types of a protocol with exactly this protocol's widths
+            -- (its own, or another one of the same side that shares the AXI configuration)
+            (ps ++ d.protocols).any fun q =>
+              q.dataW == p.dataW && q.addrW == p.addrW && q.idW == p.idW && q.userW == p.userW &&
+              (c.params.find? (·.1 == tyReq)).map (·.2) == some (.ident (q.typeName ++ "_req_t")) &&
+              (c.params.find? (·.1 == tyRsp)).map (·.2) == some (.ident (q.typeName ++ "_rsp_t"))
           if ps.any okFor then [] else
             [fnd "port-binding" site s!".{reqPort}/.{rspPort} are not bound to element {repr i.idx} of a declared port of matching type"]
       let mgrF := side mgrs (pfx ++ "_in_req_i") (pfx ++ "_in_rsp_o") "_req_i" "_rsp_o"
